@@ -517,6 +517,9 @@ def run(ck, F):
                                 problems.add("keyword table not applied")
                             if pascal and not snake and "<self-guard>" not in chain and not glued:
                                 problems.add("`Self` not handled")
+                            if kwt and re.search(r"[A-Za-z0-9_]$", cx["left"]):
+                                problems.add("the name went through the keyword table and is glued to what stands before it: for a keyword the "
+                                             "table answers with a raw identifier (`r#type`), and `prefix_r#type` is not a token")
                             if not guard:
                                 problems.add("no legal-identifier guard (empty name, leading digit, or characters the normaliser keeps)")
                             else:
@@ -524,7 +527,7 @@ def run(ck, F):
                                 if any(c in CASE_NORMALISERS for c in chain[:gi]):
                                     problems.add("a case normaliser runs after the legal-identifier guard and can undo it (`__` becomes the empty string)")
                                 used_guards.update(c for c in chain if c in IDENT_GUARDS)
-                        r3 = sorted(p for p in problems if "keyword" in p or "Self" in p)
+                        r3 = sorted(p for p in problems if "keyword" in p or "Self" in p)   # (the glued raw identifier is one of them)
                         r1 = sorted(p for p in problems if p not in r3)
                         if r3:
                             ck.violation("R3", f"ident:{key}", ev.site,
